@@ -5989,6 +5989,10 @@ func (c CacheCompat) BitCount(ctx context.Context, key string, bitCount *BitCoun
 		resp = c.client.DoCache(ctx, c.client.B().Bitcount().Key(key).Start(bitCount.Start).End(bitCount.End).Byte().Cache(), c.ttl)
 	case BitCountIndexBit:
 		resp = c.client.DoCache(ctx, c.client.B().Bitcount().Key(key).Start(bitCount.Start).End(bitCount.End).Bit().Cache(), c.ttl)
+	default:
+		cmd := &IntCmd{}
+		cmd.SetErr(errors.New("redis: invalid bitcount index"))
+		return cmd
 	}
 	return newIntCmd(resp)
 }
